@@ -6,6 +6,7 @@ import Orda.Proofs.Rga
 import Orda.Proofs.RgaFull
 import Orda.Proofs.DocConv
 import Orda.Proofs.DocArr
+import Orda.Proofs.DocMixed
 namespace Orda.Props.C01
 open Orda
 
@@ -142,5 +143,28 @@ theorem doc_array_order_converges (d : Doc) (p : Ts) (M0 : List AIns) (ops ops' 
     (hc : ACausal (M0 ++ ops.filterMap (insOn p))) (hc' : ACausal (M0 ++ ops'.filterMap (insOn p))) :
     slotIds (applyAllA d ops) p = slotIds (applyAllA d ops') p :=
   arr_order_converge d p M0 ops ops' hperm hp hk hbase hc hc'
+
+/-! ### document: object AND array operations mixed (what a real document history is) -/
+
+open Orda.DM Orda.DA Orda.DC in
+/-- documents, full: two replicas that apply the same remote document operations — puts and removes on any object
+    nodes, inserts, deletes and updates (single- and multi-target) on any array nodes, values of any nesting depth —
+    in ANY two orders reach `ASim`-equal node tables and show the same JSON value.  `GoodD` = every operation is
+    applicable in the start document (the hypotheses of the two theorems above) and operations of the two kinds bring
+    disjoint new identifiers. -/
+theorem doc_mixed_ops_converge {d : Doc} {L L' : List DOp} (hp : L.Perm L') (h : GoodD d L) :
+    ASim (applyAllD d L) (applyAllD d L') ∧
+      (ViewOK d → (∀ x ∈ objs L, OpKeysND x) → (∀ e ∈ (arrs L).flatMap flat, EKeysND e) →
+        (applyAllD d L).view.canon = (applyAllD d L').view.canon) := mixed_converge hp h
+
+open Orda.DM in
+/-- the hypothesis is stable under reordering (so it is a property of the operation SET) -/
+theorem doc_mixed_good_is_order_free {d : Doc} {L L' : List DOp} (hp : L.Perm L') (h : GoodD d L) : GoodD d L' :=
+  goodD_perm hp h
+
+/-- non-vacuity: a concrete document with an object inside an array and seven mixed operations (nested batch insert,
+    concurrent insert at the same place, put into the inner object, two-target update superseding that object,
+    two-target delete, remove, nested put into the root) meets `GoodD` -/
+theorem doc_mixed_nonvacuous : DM.GoodD DA.Ex.base DM.Ex.L := DM.Ex.goodD
 
 end Orda.Props.C01
